@@ -125,6 +125,7 @@ func init() {
 				return err
 			}
 			c01BuildRegs(c, c.Pick(7, 300))
+			cfgWorkBuild(c)
 			nCorpus = len(W.Objs)
 			return nil
 		},
@@ -139,8 +140,17 @@ func init() {
 			c01StatusMixes(c)
 		},
 		Solo:  c01Solo,
-		Cases: func(c *mon.Ctx) int { return nCorpus + c.Pick(120000, 3000000) + c01Directed(c) },
+		Cases: func(c *mon.Ctx) int { return nCorpus + c.Pick(120000, 3000000) + c01Directed(c) + len(cfgWork) },
 		RunCase: func(c *mon.Ctx, i int) {
+			if nD := nCorpus + c.Pick(120000, 3000000) + c01Directed(c); i >= nD {
+				// "for all configurations": every Configurable lint under every valid-TOML document of C11's generator
+				// (well-typed, ill-typed, tables where a value is expected ...), through a registry holding that lint alone
+				cfgWorkRun(c, i-nD, func(o *mon.Obj, reg lint.Registry, desc string) {
+					c01Judge(c, o, regCfg{reg, desc})
+					c.R.Count("configured_evaluations", 1)
+				})
+				return
+			}
 			if nM := nCorpus + c.Pick(120000, 3000000); i >= nM {
 				// directed families: the small ones (general names, AIA, DNs, name constraints, extension shapes, CRL
 				// shapes) completely, the two big ones by a stride
@@ -215,6 +225,8 @@ func init() {
 				"cert": r.SetKeys("status_mix_cert"), "crl": r.SetKeys("status_mix_crl"), "ocsp": r.SetKeys("status_mix_ocsp"),
 				"directed_cert": r.SetKeys("directed_mix_cert"), "directed_crl": r.SetKeys("directed_mix_crl")}
 			ev.Coverage["parser_rejected"] = r.Counters["parser_rejected"]
+			ev.Coverage["configured_evaluations"] = r.Counters["configured_evaluations"]
+			ev.Coverage["configured_documents"] = r.Counters["configured_documents"]
 			if r.Counters["mutants_accepted"] < 1000 {
 				gates = append(gates, fmt.Sprintf("only %d mutants accepted by the parser", r.Counters["mutants_accepted"]))
 			}
